@@ -29,6 +29,7 @@ def manifestLine (name : String) (flags : String) (crates : String) (program : B
 
 def handleC15 : List String → String
   | ["manifest", name, flags, crates, _rep] => manifestLine name flags crates
+  | ["trigger", name, flags, crates, _scenario, _rep]
   | ["build", name, flags, crates, _where, _rep] =>
     -- the web flag of a *program* also switches serde/tokio detection off or on only through the scanners;
     -- the harness passes the scanner-relevant flags (serde, async, web) as they are in the program
